@@ -310,6 +310,38 @@ func runC08(c *Ctx) {
 	// ---- P2 strict scalar readers
 	checkStrictScalarReaders(c)
 
+	// ---- P3 the field key is compared at full width: between the varint reader and the
+	// comparison with the expected field number no conversion drops high bits (a 5–10 byte
+	// varint whose low 32 bits equal a valid key would otherwise be accepted as that key)
+	{
+		sizes := types.SizesFor("gc", "amd64")
+		n := 0
+		for _, k := range []string{"pkg/codec.(*Reader).peekKey", "pkg/codec.(*Reader).check", "pkg/codec.readKey"} {
+			fn := p.Fn(k)
+			if fn == nil {
+				continue // (peekKey is a one-line wrapper that may be inlined; check is the anchor)
+			}
+			for _, b := range blocksDeep(fn) {
+				for _, in := range b.Instrs {
+					cv, ok := in.(*ssa.Convert)
+					if !ok {
+						continue
+					}
+					sb, ok1 := cv.X.Type().Underlying().(*types.Basic)
+					db, ok2 := cv.Type().Underlying().(*types.Basic)
+					if !ok1 || !ok2 || sb.Info()&types.IsInteger == 0 || db.Info()&types.IsInteger == 0 {
+						continue
+					}
+					n++
+					c.Require("C08.P3 key-compared-at-full-width", FuncKey(fn)+": "+sb.Name()+" → "+db.Name(), p.InstrPos(in), "no integer conversion on the key path narrows the value", sizes.Sizeof(db) >= sizes.Sizeof(sb), "")
+				}
+			}
+		}
+		if chk := c.Anchor("pkg/codec.(*Reader).check"); chk != nil {
+			c.MinInstances("C08.P3 key-compared-at-full-width", n, 1)
+		}
+	}
+
 	// ---- I1 IDs
 	{
 		n := 0
@@ -630,6 +662,9 @@ func checkStrictScalarReaders(c *Ctx) {
 					}
 					// functions the error is handed to are interpreted; everything else is a later reading step
 					if g := x.Common().StaticCallee(); g != nil && IsOwn(g) && len(g.Blocks) > 0 {
+						if isNewHelper(g) {
+							return AVal{}, false // a helper the reader's code was moved into
+						}
 						for i := 0; i < g.Signature.Params().Len(); i++ {
 							if types.Identical(g.Signature.Params().At(i).Type(), types.Universe.Lookup("error").Type()) {
 								return AVal{}, false
